@@ -48,10 +48,14 @@ CHECK = {
     'quick': [
       T('d5', 'base', 'depth=5'),
       T('d4-asan', 'asan', 'depth=4'),
+      T('ladder', 'base', 'mode=ladder'),
+      T('ladder-asan', 'asan', 'mode=ladder'),
     ],
     'thorough': [
       T('d7', 'base', 'depth=7'),
       T('d6-asan', 'asan', 'depth=6'),
+      T('ladder', 'base', 'mode=ladder'),
+      T('ladder-asan', 'asan', 'mode=ladder'),
     ],
   },
 }
